@@ -232,6 +232,8 @@ Proof.
       cbn [req_ok] in Hreq. destruct Hreq as [Hvs Hss].
       set (isrc := match src with SMem im => IMem im | SFile p => match s_fs s p with Some fi => IFile p (f_mtime fi) | None => IFile p 0%Z end end) in *.
       set (i0 := {| n_src := isrc; n_cols := o_cols o; n_rows := o_rows o; n_id := 0 |}) in *.
+      match type of Estep with (if ?b then _ else _) = _ => destruct b end;
+        [inversion Estep; subst s' evs; apply (raise_only s st tmp _ Hinv)|].
       destruct (get_id (s_db s) (enc cd (descr_of i0)) (o_space o) (o_sub o) (o_now o) (o_max_ids o) (o_samples o) (o_choice o)) as [res d'] eqn:Eg.
       assert (Hw' : WF d').
       { pose proof (get_id_wf (s_db s) (enc cd (descr_of i0)) (o_space o) (o_sub o) (o_now o) (o_max_ids o) (o_samples o) (o_choice o) (proj1 Hinv) Hvs) as Hx.
